@@ -123,9 +123,12 @@ class Code15(Code13):
                 co_lnotab += chr(255)
                 co_lnotab += chr(0)
                 offset_diff -= 255
+            # The address increment goes into the first entry; the rest of
+            # the line increment follows in (0, n) entries.
             while line_diff >= 256:
-                co_lnotab += chr(0)
+                co_lnotab += chr(offset_diff)
                 co_lnotab += chr(255)
+                offset_diff = 0
                 line_diff -= 255
             co_lnotab += chr(offset_diff)
             co_lnotab += chr(line_diff)
@@ -134,7 +137,8 @@ class Code15(Code13):
 
     def freeze(self):
         for field in "co_consts co_names co_varnames co_freevars co_cellvars".split():
-            val = getattr(self, field)
+            # co_freevars and co_cellvars start with Code2 (Python 2.1+)
+            val = getattr(self, field, None)
             if isinstance(val, list):
                 setattr(self, field, tuple(val))
 
